@@ -20,6 +20,7 @@ type store struct {
 	vers  map[string]int      // user id -> version of the user object handed out
 	extra map[string][]string // user id -> ids listed by UserSessions although no record says so
 
+	dead   bool // the process "died" at a crash point: calls from goroutines that outlive it are ignored
 	quiet  bool // harness-internal decoding: no logging, no faults
 	inCall bool // an API call is running (otherwise calls come from background goroutines)
 
@@ -154,6 +155,9 @@ func (st *store) LoadSession(id string) (*sessions.Session, error) {
 	if st.quiet {
 		return nil, nil
 	}
+	if st.dead && !st.inCall {
+		return nil, nil
+	}
 	if st.fails("load", id) {
 		st.log("load %s fail", q(id))
 		return nil, errInjected
@@ -176,6 +180,9 @@ func (st *store) SaveSession(id string, s *sessions.Session) error {
 	if st.quiet {
 		return nil
 	}
+	if st.dead && !st.inCall {
+		return nil
+	}
 	if st.fails("save", id) {
 		st.log("save %s fail", q(id))
 		return errInjected
@@ -193,6 +200,9 @@ func (st *store) SaveSession(id string, s *sessions.Session) error {
 
 func (st *store) DeleteSession(id string) error {
 	if st.quiet {
+		return nil
+	}
+	if st.dead && !st.inCall {
 		return nil
 	}
 	if st.fails("del", id) {
